@@ -1,6 +1,9 @@
 CONSTANTS
   KeyLen = 2
   FileLen = 2
-SPECIFICATION DummySpec
-INVARIANT DummyInv
+SPECIFICATION CaseSpec
+INVARIANT I_Confined
+INVARIANT I_NothingOutside
+INVARIANT I_DeleteAtMostOneChild
+INVARIANT I_ExistsTouchesNothing
 POSTCONDITION EmitPost
